@@ -255,6 +255,7 @@ int main(int argc, char *argv[])
 		}
 	}
 
-	exit(err);
+	/* The exit status is the number of errors, which must not wrap to 0 */
+	exit(err > 255 ? 255 : err);
 }
 
